@@ -8,6 +8,10 @@ package main
 
 import (
 	"context"
+	"crypto/sha1"
+	"crypto/sha256"
+	"encoding/hex"
+	"sync/atomic"
 	"errors"
 	"fmt"
 	"strings"
@@ -71,6 +75,8 @@ type world struct {
 	desc        ocispec.Descriptor
 	envs        map[string][]byte
 	signTime    time.Time
+
+	controls, controlsOK atomic.Int64 // all-OK vectors (positive controls) and how many of them passed
 }
 
 var ctx = context.Background()
@@ -173,11 +179,11 @@ func (w *world) run(r *hx.Run, c caseT) {
 		}
 		r.Violation(key, fmt.Sprintf("%s | n=%d vector=%s method=%v servers=%d validatorError=%v iface=%d action=%s scheme=%s", what, c.N, c.vecString(), methods[c.Method], c.Servers, c.VErr, c.Iface, c.Action, scheme), c)
 	}
-	if outcome == nil {
-		bad("nil-outcome", fmt.Sprintf("nil outcome, err=%v", verr))
+	if outcome == nil && verr == nil {
+		bad("nil-outcome", "Verify returned neither an outcome nor an error")
 		return
 	}
-	rs := vt.ResultOf(outcome, trustpolicy.TypeRevocation)
+	rs := vt.ResultOf(outcome, trustpolicy.TypeRevocation) // a nil outcome with an error: no entries
 	calls := append([]mocks.RevCall{}, primary.Calls...)
 
 	// reference aggregation
@@ -201,29 +207,40 @@ func (w *world) run(r *hx.Run, c caseT) {
 		}
 	}
 
+	// What the statement fixes (and nothing else is judged): when revocation is not skipped, the validation passes
+	// only if every certificate was reported OK / non-revokable; a revoked certificate makes it fail as revoked and
+	// a revoked certificate is named; any other status or a validator error fails it; the validator sees the complete
+	// chain, and the authentic signing time exactly for signing-authority signatures; revocation fails closed (an
+	// enforced failure rejects). Everything else - what happens under skip (property C02), which interface wins when
+	// both are given, how often the validator is asked, how many result entries there are, the action they carry,
+	// that an all-OK vector passes (positive control), the wording of messages - is recorded in the evidence only.
+	rec := func(k string) { r.Outcome("recorded:" + k) }
 	if c.Action == "skip" {
 		if len(calls)+len(other.Calls) != 0 {
-			bad("skip/validator-consulted", "revocation is skipped but the validator was called")
+			rec("skip/validator-consulted")
 		}
 		if len(rs) != 0 {
-			bad("skip/result-reported", "revocation is skipped but a result is reported")
+			rec("skip/result-reported")
 		}
 		if verr != nil {
-			bad("skip/verification-failed", verr.Error())
+			rec("skip/verification-failed")
 		}
 		r.Outcome("skip:not-performed")
 		return
 	}
-	// performed: exactly one call, on the selected interface, with the complete chain
 	if len(other.Calls) != 0 {
-		bad("calls/deprecated-client-used-although-validator-set", "both interfaces set: the deprecated client was consulted")
+		rec("calls/deprecated-client-consulted-although-validator-set")
+		calls = append(calls, other.Calls...)
 	}
-	if len(calls) != 1 {
-		bad("calls/count", fmt.Sprintf("%d validator calls, want exactly 1", len(calls)))
-	} else {
-		cl := calls[0]
+	if len(calls) == 0 {
+		bad("calls/count", "revocation is not skipped but no validator was consulted")
+	}
+	if len(calls) > 1 {
+		rec("calls/validator-consulted-more-than-once")
+	}
+	for _, cl := range calls {
 		if c.Iface != 1 && !cl.ViaContext {
-			bad("calls/wrong-interface", "context-aware validator not used")
+			rec("calls/context-aware-validator-reached-through-its-deprecated-method")
 		}
 		want := ch.X509()
 		if len(cl.Chain) != len(want) {
@@ -235,15 +252,6 @@ func (w *world) run(r *hx.Run, c caseT) {
 					break
 				}
 			}
-			if outcome.EnvelopeContent != nil {
-				oc := outcome.EnvelopeContent.SignerInfo.CertificateChain
-				for i := range oc {
-					if i < len(cl.Chain) && string(oc[i].Raw) != string(cl.Chain[i].Raw) {
-						bad("calls/chain-differs-from-outcome", "chain handed to the validator differs from the outcome's chain")
-						break
-					}
-				}
-			}
 		}
 		if c.Scheme == 0 && !cl.SigningTime.IsZero() {
 			bad("calls/signing-time-passed-for-x509", fmt.Sprintf("authentic signing time %v handed over for a notary.x509 signature", cl.SigningTime))
@@ -253,64 +261,105 @@ func (w *world) run(r *hx.Run, c caseT) {
 		}
 	}
 	if len(rs) != 1 {
-		bad("result/count", fmt.Sprintf("%d revocation results, want 1", len(rs)))
-		return
+		rec(fmt.Sprintf("result/%d-revocation-entries", len(rs)))
 	}
-	res := rs[0]
-	if pass {
-		if res.Error != nil {
-			bad("result/failed-although-all-ok", res.Error.Error())
+	var msgs []string
+	for _, x := range rs {
+		if x.Error != nil {
+			msgs = append(msgs, x.Error.Error())
 		}
-		if verr != nil {
-			bad("verdict/rejected-although-all-ok", verr.Error())
+		if x.Action != vt.A(c.Action) {
+			rec("result/action-differs-from-level(property C02)")
+		}
+	}
+	failedReported := len(msgs) > 0
+	if pass {
+		w.controls.Add(1)
+		if failedReported || verr != nil {
+			rec("control/all-ok-vector-not-passed")
+		} else {
+			w.controlsOK.Add(1)
 		}
 	} else {
-		if res.Error == nil {
-			bad("result/passed-although-"+class, "revocation validation passed")
-		} else {
-			msg := res.Error.Error()
-			if class == "fail-revoked" {
-				if !strings.Contains(strings.ToLower(msg), "revoked") {
-					bad("result/revoked-not-reported-as-revoked", msg)
-				}
-				named := false
-				for i, x := range c.Vec {
-					subj := ch.X509()[i].Subject.String()
-					if subj == "" {
-						if x == 3 {
-							named = true // an empty subject cannot be recognised in the message
-						}
-						continue
-					}
-					if strings.Contains(msg, subj) {
-						if x == 3 {
-							named = true
-						} else {
-							bad("result/names-a-certificate-that-is-not-revoked", msg)
-						}
-					}
-				}
-				if !named {
-					bad("result/does-not-name-a-revoked-certificate", msg)
-				}
-			} else if strings.Contains(msg, "is revoked") {
-				bad("result/claims-revoked-without-revoked-certificate", msg)
-			}
-		}
 		if c.Action == "enforce" && verr == nil {
 			bad("verdict/accepted-although-"+class, "revocation enforced and failed, verification succeeded")
 		}
 		if c.Action == "log" && verr != nil {
-			bad("verdict/rejected-although-logged", verr.Error())
+			rec("verdict/rejected-although-logged(property C02)")
 		}
-	}
-	if res.Action != vt.A(c.Action) {
-		bad("result/wrong-action", string(res.Action))
+		if !failedReported {
+			if len(rs) > 0 {
+				bad("result/passed-although-"+class, "revocation validation passed")
+			} else if verr == nil {
+				bad("result/passed-although-"+class, "no revocation result reported and verification succeeded: the failure is invisible")
+			} else {
+				msgs = append(msgs, verr.Error()) // no entry, but the verification error may carry the diagnosis
+			}
+		}
+		msg := strings.Join(msgs, " | ")
+		if len(msgs) > 0 {
+			if class == "fail-revoked" {
+				if !strings.Contains(strings.ToLower(msg), "revok") && !strings.Contains(strings.ToLower(msg), "revoc") {
+					bad("result/revoked-not-reported-as-revoked", msg)
+				}
+				named, anyNameable := false, false
+				for i, x := range c.Vec {
+					cert := ch.X509()[i]
+					if x == 3 && !nameable(cert) {
+						named = true // an empty subject cannot be recognised in the message
+					}
+					if !nameable(cert) {
+						continue
+					}
+					anyNameable = true
+					if namedIn(msg, cert) {
+						if x == 3 {
+							named = true
+						} else {
+							rec("result/also-names-a-certificate-that-is-not-revoked")
+						}
+					}
+				}
+				if !named && anyNameable {
+					bad("result/does-not-name-a-revoked-certificate", msg)
+				}
+			} else if strings.Contains(msg, "is revoked") {
+				rec("result/message-says-is-revoked-without-revoked-certificate")
+			}
+		}
 	}
 	r.Outcome(c.Action + ":" + class)
 	if !pass {
 		r.Nontrivial(fmt.Sprintf("%d|%v|%d|%d|%v|%d|%s|%d|%d", c.N, c.Vec, c.Method, c.Servers, c.VErr, c.Iface, c.Action, c.Scheme, c.Format))
 	}
+}
+
+// nameable: the certificate has something a message can name it by.
+func nameable(c *x509.Certificate) bool { return c.Subject.String() != "" }
+
+// namedIn: the message identifies the certificate - by its subject in Go's or in a blank-separated rendering, by its
+// common name, its serial number (decimal or hexadecimal) or its SHA-256 / SHA-1 fingerprint. The statement says
+// "names a revoked certificate", not how.
+func namedIn(msg string, c *x509.Certificate) bool {
+	low := strings.ToLower(msg)
+	subj := c.Subject.String()
+	cands := []string{subj, strings.ReplaceAll(subj, ",", ", ")}
+	if c.Subject.CommonName != "" {
+		cands = append(cands, c.Subject.CommonName)
+	}
+	for _, k := range cands {
+		if k != "" && strings.Contains(msg, k) {
+			return true
+		}
+	}
+	if c.SerialNumber != nil && c.SerialNumber.BitLen() > 16 {
+		if strings.Contains(msg, c.SerialNumber.String()) || strings.Contains(low, strings.ToLower(c.SerialNumber.Text(16))) {
+			return true
+		}
+	}
+	h2 := sha256.Sum256(c.Raw)
+	h1 := sha1.Sum(c.Raw)
+	return strings.Contains(low, hex.EncodeToString(h2[:])) || strings.Contains(low, hex.EncodeToString(h1[:]))
 }
 
 func main() {
@@ -421,5 +470,10 @@ func main() {
 			r.Sample(map[string]any{"n": c.N, "vector": c.vecString(), "method": methods[c.Method].String(), "servers": c.Servers, "iface": c.Iface, "action": c.Action, "scheme": c.Scheme})
 		}
 	}, nil)
+	r.Extra["positive_controls"] = w.controls.Load()
+	r.Extra["positive_controls_passed"] = w.controlsOK.Load()
+	if w.controls.Load() > 0 && w.controlsOK.Load() == 0 {
+		r.Infra("vacuous run: none of the %d all-OK vectors passed revocation", w.controls.Load())
+	}
 	r.Finish()
 }
